@@ -486,10 +486,10 @@ theorem input_fits_eq (cc : CC) (hi : Inv cc) (data : Bytes) (hd : data ≠ [])
     simp (disch := omega) only [wrapU64_of_range, wrapS32_of_range, decide_eq_true_eq] at hno
     omega
   · first
+    | exact ⟨true, rfl, rfl⟩          -- the test comes without a CHECK (`cc.chk true` is `cc`)
     | refine ⟨_, ?_, rfl⟩
       simp (disch := omega) only [wrapU64_of_range, wrapS32_of_range, decide_eq_true_eq]
       omega
-    | exact ⟨true, rfl, rfl⟩
 
 /-- the chunk fits: it is copied behind the pending bytes, terminated, and the scan loop runs -/
 theorem input_fits_refines (cc : CC) (hi : Inv cc) (data : Bytes) (hd : data ≠ [])
